@@ -215,5 +215,5 @@ def normalise(prog, hints=None):
                 done[key] = ren
     if done:
         from . import loader
-        loader._local_store_cache.clear()
+        loader.invalidate_caches()
     return done
